@@ -32,4 +32,4 @@ class SwapLabelWrapper(KDWrapper):
         return bool(self.apply[idx])
 
     def getall_apply(self):
-        return self.apply[idx].tolist()
+        return self.apply.tolist()
